@@ -1187,6 +1187,9 @@ class _WireReader:
                 if rdtype == dns.rdatatype.OPT:
                     self.message.opt = dns.rrset.from_rdata(name, ttl, rd)
                 elif rdtype == dns.rdatatype.TSIG:
+                    if ttl != 0:
+                        # RFC 8945 section 4.2: the TTL MUST be 0 (it is digested as 0)
+                        raise BadTSIG
                     trd = cast(dns.rdtypes.ANY.TSIG.TSIG, rd)
                     if self.keyring is None or self.keyring is True:
                         raise UnknownTSIGKey("got signed message without keyring")
